@@ -1,58 +1,234 @@
 ----------------------------- MODULE SharedState -----------------------------
 (***************************************************************************)
 (* C15: a loaded document and its routers shared by concurrent validation  *)
-(* calls.  Each operation of the catalogue is transcribed as the sequence  *)
-(* of accesses it makes to shared locations:                               *)
+(* calls.                                                                  *)
+(*                                                                         *)
+(* ELEMENTS.  Every piece of mutable state that outlives one call is a     *)
+(* *location* of this module (Locations below): the process-wide tables    *)
+(* and caches of openapi3 / openapi3filter / openapi3gen, the loaded       *)
+(* document, the routers' internals, and the objects a caller shares on    *)
+(* purpose (one Options value, one middleware).  State that lives for one  *)
+(* call only (the settings object of a visit, the decoded body, the        *)
+(* RouteMatch) is request-local and is left out -- unless a *design*       *)
+(* (constants below) makes it shared.                                      *)
+(*                                                                         *)
+(* OPERATIONS.  An operation of the catalogue is a pair <<entry, feature>>:*)
+(* the API entry point a goroutine calls, and the schema feature / media   *)
+(* type / router shape the call meets in the shared document.  Its access  *)
+(* sequence is composed: accesses of the entry, then those of the feature. *)
 (*    <<"R", loc>>  plain read      <<"W", loc>>  plain write              *)
 (*    <<"A", loc>>  atomic / sync.Map access                               *)
 (*    <<"L", m>>  lock mutex m      <<"U", m>>  unlock                     *)
-(* (request-local state is not shared and is left out).  Goroutines        *)
-(* interleave at access granularity.  A race state is one in which two     *)
-(* goroutines' next accesses touch the same location, at least one is a    *)
-(* plain write, neither is atomic, and they hold no common mutex.          *)
+(* Goroutines interleave at access granularity.  A race state is one in    *)
+(* which two goroutines' next accesses touch the same location, at least   *)
+(* one is a plain write, neither is atomic, and they hold no common mutex. *)
+(*                                                                         *)
+(* DESIGNS.  Each constant names one mechanism the code relies on; TRUE is *)
+(* the code as built.  MC_C15 checks NoRace for the code as built and pins *)
+(* a counterexample for every design that drops one mechanism.             *)
 (***************************************************************************)
 EXTENDS Naturals, Sequences, FiniteSets, TLC
 
-CONSTANTS DefaultCopied,   \* TRUE: schema defaults are deep-copied before use (repaired tree)
-          RouteCopied,     \* TRUE: gorillamux FindRoute returns a copy of the route (as the code does)
-          MaxOps           \* number of concurrent operations explored
+CONSTANTS DefaultCopied,      \* schema defaults are deep-copied before they are installed in a body
+          RouteCopied,        \* gorillamux FindRoute returns a copy of the route it built at construction
+          SettingsPerCall,    \* every visit allocates its own settings object (also when it is given no option)
+          VisitReadsSettings, \* a visit only reads its settings (FALSE: 'not' / 'anyOf' toggle a flag in them around the nested visit)
+          RegistryInitOnly,   \* the body decoder registry is written at init time only (FALSE: a decode registers on a miss)
+          TypeInfosLocked,    \* openapi3gen's type-info cache is accessed under its RWMutex
+          PatternCacheAtomic, \* the compiled-pattern cache is a sync.Map
+          UriCacheLocked,     \* the URI cache of DefaultReadFromURI is accessed under uriMu
+          UniqueCheckerSet,   \* CONFIGURATION, not design: the uniqueness checker variable is non-nil when validations start
+          WithWriters,        \* the documented writers (doc.Validate, router construction, Register* / Define*) join the catalogue
+          MaxOps              \* number of concurrent operations explored
 
 Acc(k, x) == <<k, x>>
 
-Ops == {"find_mux", "find_legacy", "vreq_params", "vreq_params_delete", "vreq_body_pattern_first", "vreq_body_pattern_again", "vreq_body_unique",
-        "vreq_body_defaults", "vresp", "visitjson", "gen_newtype", "gen_sametype", "vreq_body_pattern_customregex", "vreq_secure_body",
-        "vreq_multipart_addprops", "vreq_json_addprops", "vreq_form_sharedopts", "vreq_json_defaults_sharedopts"}
+(* ------------------------------------------------------------------ elements *)
+Locations ==
+   [ patternCache     |-> "openapi3.compiledPatterns: sync.Map, Load / CompareAndSwap by every string visit with a pattern",
+     uniqueChecker    |-> "openapi3.sliceUniqueItemsChecker: package variable, read by every array visit, re-initialised there when nil",
+     formats_string   |-> "openapi3.SchemaStringFormats: plain map, read by string visits with a format; written by DefineStringFormat*",
+     formats_number   |-> "openapi3.SchemaNumberFormats: plain map, read by number visits with a format",
+     formats_integer  |-> "openapi3.SchemaIntegerFormats: plain map, read by integer visits with a format",
+     errDetails       |-> "openapi3.SchemaErrorDetailsDisabled: package bool read by SchemaError.Error()",
+     settings_default |-> "the settings object of a visit; shared only in the design ~SettingsPerCall",
+     bodyDecoders     |-> "openapi3filter.bodyDecoders: plain map, read by every body decode; Register/UnregisterBodyDecoder are init-time",
+     bodyEncoders     |-> "openapi3filter.bodyEncoders: map under bodyEncodersM (RWMutex), read when a completed body is written back",
+     jsonPrefixes     |-> "openapi3filter.JSONPrefixes: slice read by response validation",
+     typeInfos        |-> "openapi3gen.typeInfos: map under typeInfosMutex",
+     uriCache         |-> "openapi3.DefaultReadFromURI: URIMapCache map under uriMu",
+     doc              |-> "the loaded document: paths, path items, parameter lists, operations, schemas, defaults, security, servers",
+     mux              |-> "gorillamux.Router: muxes, routes (prototypes copied per FindRoute)",
+     legacy           |-> "legacy.Router: pathpattern tree (and the *Route values stored in it, returned as they are)",
+     callerOptions    |-> "one openapi3filter.Options value used for many requests",
+     middleware       |-> "one openapi3filter.Validator serving many requests" ]
+
+(* what a test can see of the shared state without hooks: these must be the same before and after any run of catalogue operations *)
+DocLocs == {"doc.schema", "doc.schema.default", "doc.schema.properties", "doc.paths", "doc.pathitem.parameters",
+            "doc.operation.parameters", "doc.operation", "doc.security", "doc.securitySchemes", "doc.servers"}
+Observable == DocLocs \cup {"bodyDecoders", "bodyEncoders", "formats_string", "formats_number", "formats_integer", "errDetails"}
+
+(* ------------------------------------------------------------------ the product catalogue: entry x schema feature *)
+Entries == {"visit", "visit_typed", "visit_opts", "param_query", "param_header", "param_multi",
+            "req_body", "resp_body", "resp_header", "middleware",
+            "param_query_legacy", "req_body_legacy"}      \* the same calls with the route the legacy router returns (its stored *Route, not a copy)
+(* entries that hand the visit no SchemaValidationOption at all *)
+OptionLess == {"visit", "visit_typed", "param_query", "param_header", "resp_header", "param_query_legacy"}
+Features == {"not", "anyof", "oneof", "allof", "pattern", "format_date", "format_custom", "format_int32", "number",
+             "enum", "minmax", "unique", "object", "discriminator"}
+(* object-valued features cannot be a styled query / header value of the catalogue's shapes; the parameter / header *)
+(* decoders do not implement 'not' (they answer "not implemented: decoding 'not'": a stated limit, outside C15)     *)
+Usable(e, f) == f \in {"object", "discriminator", "not"} => e \in {"visit", "visit_typed", "visit_opts", "req_body", "resp_body", "middleware", "req_body_legacy"}
+(* the typed visitors (VisitJSONString, ...Number, ...Array, ...Object) check the keywords of that type only: the  *)
+(* features below are not looked at by them                                                                        *)
+NotTyped == {"not", "anyof", "oneof", "allof", "enum", "discriminator"}
+ProductOps == {<<e, f>> \in Entries \X Features : Usable(e, f)}
+
+(* ------------------------------------------------------------------ media types of bodies: declared content key x media type sent *)
+MtEntries == {"mt_req", "mt_resp"}
+JsonLike == {"json", "problem", "vendor_new", "vendor_reg", "yaml"}
+MtPairs == ({"exact", "appstar", "any"} \X JsonLike) \cup ({"exact"} \X {"plain", "octet"})
+MtName(p) == p[1] \o "." \o p[2]
+MtFeatures == {MtName(p) : p \in MtPairs}
+MtSent(f) == (CHOOSE p \in MtPairs : MtName(p) = f)[2]
+(* the registry when validations start: the library's built-in types and what the process registered at init time *)
+RegisteredAtStart == {"json", "problem", "vendor_reg", "yaml", "plain", "octet"}
+MtOps == MtEntries \X MtFeatures
+
+(* ------------------------------------------------------------------ the flat operations (rounds 1-5) and further entry points *)
+FlatOps == {"find_mux", "find_legacy", "find_mux_servers", "find_legacy_servers",
+            "vreq_params", "vreq_params_delete", "vreq_body_pattern", "vreq_body_pattern_first", "vreq_body_pattern_again", "vreq_body_unique",
+            "vreq_body_defaults", "vresp", "visitjson", "gen_newtype", "gen_sametype", "gen_nested", "gen_customizer",
+            "vreq_body_pattern_customregex", "vreq_secure_body",
+            "vreq_multipart_addprops", "vreq_json_addprops", "vreq_form_sharedopts", "vreq_json_defaults_sharedopts",
+            "load_cached", "doc_marshal"}
+(* documented writers: never part of the validation-time catalogue; in the model to show WHY (WithWriters has a counterexample) *)
+WriterOps == {"w_doc_validate", "w_new_legacy_router", "w_register_decoder", "w_define_format", "w_register_unique"}
+
+Ops == ProductOps \cup MtOps \cup {<<o, "-">> : o \in FlatOps} \cup (IF WithWriters THEN {<<o, "-">> : o \in WriterOps} ELSE {})
+
+(* ------------------------------------------------------------------ access sequences *)
+Find == <<Acc("R", "mux")>> \o (IF RouteCopied THEN <<>> ELSE <<Acc("W", "mux.route"), Acc("R", "mux.route")>>)
+FindLegacy == <<Acc("R", "legacy"), Acc("R", "doc.paths"), Acc("R", "legacy.route")>>      \* the caller reads the router's own Route value
+SharedSettings(e) == e \in OptionLess /\ ~SettingsPerCall
+SettingsRead(e) == IF SharedSettings(e) THEN <<Acc("R", "settings_default")>> ELSE <<>>
+SettingsToggle(e) == IF SharedSettings(e) /\ ~VisitReadsSettings THEN <<Acc("W", "settings_default"), Acc("W", "settings_default")>>
+                     ELSE <<>>          \* with per-call settings the toggle is a write to request-local memory
+TypeInfos(write) ==
+   LET body == <<Acc("R", "typeInfos")>> \o (IF write THEN <<Acc("W", "typeInfos")>> ELSE <<>>) IN
+   IF TypeInfosLocked THEN <<Acc("L", "typeInfosMutex")>> \o body \o <<Acc("U", "typeInfosMutex")>> ELSE body
+Pattern(first) ==
+   IF PatternCacheAtomic THEN <<Acc("A", "patternCache")>> \o (IF first THEN <<Acc("A", "patternCache")>> ELSE <<>>)
+   ELSE <<Acc("R", "patternCache")>> \o (IF first THEN <<Acc("W", "patternCache")>> ELSE <<>>)
+Unique == <<Acc("R", "uniqueChecker")>> \o (IF UniqueCheckerSet THEN <<>> ELSE <<Acc("W", "uniqueChecker")>>)
+Decoders(miss) == <<Acc("R", "bodyDecoders")>> \o (IF miss /\ ~RegistryInitOnly THEN <<Acc("W", "bodyDecoders")>> ELSE <<>>)
+
+EntryAcc(e) ==
+   CASE e \in {"visit", "visit_typed", "visit_opts"} -> <<Acc("R", "doc.schema")>>
+     [] e \in {"param_query", "param_header", "param_multi"} ->
+          Find \o <<Acc("R", "doc.pathitem.parameters"), Acc("R", "doc.operation.parameters"), Acc("R", "doc.schema")>>
+     [] e \in {"req_body", "mt_req"} -> Find \o <<Acc("R", "doc.operation"), Acc("R", "doc.schema")>>
+     [] e = "param_query_legacy" ->
+          FindLegacy \o <<Acc("R", "doc.pathitem.parameters"), Acc("R", "doc.operation.parameters"), Acc("R", "doc.schema")>>
+     [] e = "req_body_legacy" -> FindLegacy \o <<Acc("R", "doc.operation"), Acc("R", "doc.schema")>>
+     [] e \in {"resp_body", "mt_resp"} -> Find \o <<Acc("R", "doc.operation"), Acc("R", "jsonPrefixes"), Acc("R", "doc.schema")>>
+     [] e = "resp_header" -> Find \o <<Acc("R", "doc.operation"), Acc("R", "doc.schema")>>
+     [] e = "middleware" -> <<Acc("R", "middleware")>> \o Find \o <<Acc("R", "doc.operation"), Acc("R", "doc.schema"), Acc("R", "jsonPrefixes")>>
+
+FeatureAcc(e, f) ==
+   CASE e = "visit_typed" /\ f \in NotTyped -> <<>>
+     [] f \in {"not", "anyof"} -> SettingsToggle(e)
+     [] f = "pattern" -> Pattern(TRUE)
+     [] f \in {"format_date", "format_custom"} -> <<Acc("R", "formats_string")>>
+     [] f \in {"format_int32", "minmax"} -> <<Acc("R", "formats_integer")>>
+     [] f = "number" -> <<Acc("R", "formats_number")>>
+     [] f = "unique" -> Unique
+     [] OTHER -> <<>>
+
+FlatAcc(op) ==
+   CASE op = "find_mux" -> Find
+     [] op = "find_mux_servers" -> Find \o <<Acc("R", "doc.servers")>>
+     [] op = "find_legacy" -> <<Acc("R", "legacy"), Acc("R", "doc.paths")>>
+     [] op = "find_legacy_servers" -> <<Acc("R", "doc.servers"), Acc("R", "legacy"), Acc("R", "doc.paths")>>
+     [] op \in {"vreq_params", "vreq_params_delete"} ->      \* path-item parameters and the operation's own: two lists, both only read
+          Find \o <<Acc("R", "doc.pathitem.parameters"), Acc("R", "doc.operation.parameters"), Acc("R", "doc.schema")>>
+     [] op \in {"vreq_body_pattern", "vreq_body_pattern_first"} -> <<Acc("R", "doc.schema")>> \o Decoders(FALSE) \o Pattern(TRUE) \o Unique
+     [] op = "vreq_body_pattern_customregex" ->      \* a caller-supplied regex compiler: its matchers must stay the caller's own
+          <<Acc("R", "doc.schema")>> \o Decoders(FALSE) \o Pattern(FALSE)
+     [] op = "vreq_body_pattern_again" -> <<Acc("R", "doc.schema")>> \o Decoders(FALSE) \o Pattern(FALSE)
+     [] op = "vreq_secure_body" ->      \* security + body: the body is buffered around the authentication callback in request-local memory
+          <<Acc("R", "doc.security"), Acc("R", "doc.securitySchemes"), Acc("R", "doc.schema")>> \o Decoders(FALSE)
+     [] op \in {"vreq_multipart_addprops", "vreq_json_addprops"} ->      \* the decoders only READ the schema's property maps
+          <<Acc("R", "doc.schema"), Acc("R", "doc.schema.properties")>> \o Decoders(FALSE)
+     [] op = "vreq_form_sharedopts" ->     \* the caller's Options are configuration: read, never written
+          <<Acc("R", "callerOptions"), Acc("R", "doc.schema")>> \o Decoders(FALSE)
+     [] op = "vreq_json_defaults_sharedopts" ->     \* ... and a body completed with defaults is written back through the encoder registry
+          <<Acc("R", "callerOptions"), Acc("R", "doc.schema")>> \o Decoders(FALSE)
+          \o <<Acc("L", "bodyEncodersM"), Acc("R", "bodyEncoders"), Acc("U", "bodyEncodersM")>>
+     [] op = "vreq_body_unique" -> <<Acc("R", "doc.schema")>> \o Decoders(FALSE) \o Unique
+     [] op = "vreq_body_defaults" ->
+          <<Acc("R", "doc.schema"), Acc("R", "doc.schema.default")>> \o Decoders(FALSE)
+          \o (IF DefaultCopied THEN <<>> ELSE <<Acc("W", "doc.schema.default")>>)      \* nested default written into the shared default
+          \o <<Acc("L", "bodyEncodersM"), Acc("R", "bodyEncoders"), Acc("U", "bodyEncodersM")>>
+     [] op = "vresp" -> <<Acc("R", "doc.schema"), Acc("R", "jsonPrefixes")>> \o Decoders(FALSE)
+     [] op = "visitjson" -> <<Acc("R", "doc.schema")>> \o Pattern(FALSE) \o Unique
+     [] op \in {"gen_newtype", "gen_nested"} -> TypeInfos(TRUE)
+     [] op \in {"gen_sametype", "gen_customizer"} -> TypeInfos(FALSE)
+     [] op = "load_cached" ->        \* a Loader with the default reader: the process-wide URI cache, then a document of its own
+          IF UriCacheLocked
+          THEN <<Acc("L", "uriMu"), Acc("R", "uriCache"), Acc("U", "uriMu"), Acc("L", "uriMu"), Acc("W", "uriCache"), Acc("U", "uriMu")>>
+          ELSE <<Acc("R", "uriCache"), Acc("W", "uriCache")>>
+     [] op = "doc_marshal" ->       \* the document served (as JSON) while it is used for validation: a reader of all of it
+          <<Acc("R", "doc.paths"), Acc("R", "doc.pathitem.parameters"), Acc("R", "doc.operation.parameters"), Acc("R", "doc.operation"),
+            Acc("R", "doc.schema"), Acc("R", "doc.schema.properties"), Acc("R", "doc.schema.default"), Acc("R", "doc.security"), Acc("R", "doc.securitySchemes")>>
+     (* documented writers *)
+     [] op = "w_doc_validate" -> <<Acc("R", "doc.schema"), Acc("W", "doc.paths"), Acc("R", "formats_string")>>        \* fills nil path items
+     [] op = "w_new_legacy_router" -> <<Acc("W", "doc.paths"), Acc("W", "legacy")>>                                    \* validates, builds the tree
+     [] op = "w_register_decoder" -> <<Acc("W", "bodyDecoders")>>
+     [] op = "w_define_format" -> <<Acc("W", "formats_string")>>
+     [] op = "w_register_unique" -> <<Acc("W", "uniqueChecker")>>
 
 Accesses(op) ==
-   CASE op = "find_mux" ->
-          <<Acc("R", "mux.routes")>> \o (IF RouteCopied THEN <<>> ELSE <<Acc("W", "mux.route.method"), Acc("R", "mux.route.method")>>)
-     [] op = "find_legacy" -> <<Acc("R", "legacy.tree"), Acc("R", "doc.paths")>>
-     [] op \in {"vreq_params", "vreq_params_delete"} ->      \* path-item parameters and the operation's own: two lists, both only read
-          <<Acc("R", "doc.pathitem.parameters"), Acc("R", "doc.operation.parameters"), Acc("R", "doc.schema")>>
-     [] op = "vreq_body_pattern_first" -> <<Acc("R", "doc.schema"), Acc("A", "patternCache"), Acc("A", "patternCache")>>
-     [] op = "vreq_body_pattern_customregex" ->      \* a caller-supplied regex compiler: its matchers must stay the caller's own
-          <<Acc("R", "doc.schema"), Acc("A", "patternCache")>>
-     [] op = "vreq_body_pattern_again" -> <<Acc("R", "doc.schema"), Acc("A", "patternCache")>>
-     [] op = "vreq_secure_body" ->      \* security + body: the body is buffered around the authentication callback in request-local memory
-          <<Acc("R", "doc.security"), Acc("R", "doc.securitySchemes"), Acc("R", "doc.schema")>>
-     [] op \in {"vreq_multipart_addprops", "vreq_json_addprops"} ->      \* the decoders only READ the schema's property maps
-          <<Acc("R", "doc.schema"), Acc("R", "doc.schema.properties"), Acc("R", "bodyDecoders")>>
-     [] op \in {"vreq_form_sharedopts", "vreq_json_defaults_sharedopts"} ->     \* the caller's Options are configuration: read, never written
-          <<Acc("R", "caller.options"), Acc("R", "doc.schema"), Acc("R", "bodyDecoders")>>
-     [] op = "vreq_body_unique" -> <<Acc("R", "doc.schema"), Acc("R", "uniqueChecker")>>
-     [] op = "vreq_body_defaults" ->
-          <<Acc("R", "doc.schema"), Acc("R", "doc.schema.default")>>
-          \o (IF DefaultCopied THEN <<>> ELSE <<Acc("W", "doc.schema.default")>>)      \* nested default written into the shared default
-     [] op = "vresp" -> <<Acc("R", "doc.schema"), Acc("R", "bodyDecoders")>>
-     [] op = "visitjson" -> <<Acc("R", "doc.schema")>>
-     [] op = "gen_newtype" -> <<Acc("L", "typeInfosMu"), Acc("R", "typeInfos"), Acc("W", "typeInfos"), Acc("U", "typeInfosMu")>>
-     [] op = "gen_sametype" -> <<Acc("L", "typeInfosMu"), Acc("R", "typeInfos"), Acc("U", "typeInfosMu")>>
+   LET e == op[1]  f == op[2] IN
+   IF f = "-" THEN FlatAcc(e)
+   ELSE IF e \in MtEntries THEN EntryAcc(e) \o Decoders(MtSent(f) \notin RegisteredAtStart)
+   ELSE SettingsRead(e) \o EntryAcc(e) \o (IF e \in {"req_body", "resp_body", "middleware", "req_body_legacy"} THEN Decoders(FALSE) ELSE <<>>) \o FeatureAcc(e, f)
 
-(* The verdict the documents of the catalogue prescribe for variant v (1..3) of each validating  *)
-(* operation, whoever else uses the document at the same time: the default engine is case        *)
-(* sensitive, a caller's own engine (case-insensitive in the catalogue) is used for that caller  *)
-(* only.  "other": the operation reports no accept/reject verdict.                               *)
-Verdicts(op) ==
+(* the locations an operation writes (plain or atomically) *)
+Writes(op) == {Accesses(op)[i][2] : i \in {j \in DOMAIN Accesses(op) : Accesses(op)[j][1] \in {"W", "A"}}}
+(* FRAME: as built, no operation of the validation-time catalogue writes an observable location *)
+FrameHolds == \A op \in Ops : Writes(op) \cap Observable = {}
+
+(* ------------------------------------------------------------------ race sites *)
+(* The race detector names the two library functions whose accesses conflicted; this is the location each of them  *)
+(* is known to touch ("unmodelled": a function the model has no shared access for -- the code and the model differ) *)
+SiteLocation(fn) ==
+   CASE fn = "openapi3.(*Schema).visitJSONArray" -> "uniqueChecker"
+     [] fn \in {"openapi3.(*Schema).visitJSONString", "openapi3.(*Schema).compilePattern"} -> "patternCache / formats_string"
+     [] fn \in {"openapi3.(*Schema).visitJSONNumber"} -> "formats_number / formats_integer"
+     [] fn \in {"openapi3.(*Schema).visitJSONObject"} -> "doc.schema.default / doc.schema.properties"
+     [] fn \in {"openapi3.(*Schema).visitNotOperation", "openapi3.(*Schema).visitXOFOperations", "openapi3.(*Schema).visitJSON",
+                "openapi3.(*Schema).matchesJSON", "openapi3.newSchemaValidationSettings"} -> "settings_default"
+     [] fn \in {"openapi3filter.decodeBody", "openapi3filter.RegisterBodyDecoder", "openapi3filter.RegisteredBodyDecoder",
+                "openapi3filter.UnregisterBodyDecoder"} -> "bodyDecoders"
+     [] fn \in {"openapi3filter.encodeBody", "openapi3filter.RegisteredBodyEncoder", "openapi3filter.RegisterBodyEncoder"} -> "bodyEncoders"
+     [] fn \in {"openapi3gen.getTypeInfo"} -> "typeInfos"
+     [] fn \in {"routers/gorillamux.(*Router).FindRoute"} -> "mux.route"
+     [] fn \in {"routers/legacy.(*Router).FindRoute", "routers/legacy/pathpattern.(*Node).Match", "routers/legacy/pathpattern.(*Node).MatchNode"} -> "legacy"
+     [] fn \in {"openapi3filter.ValidateRequest", "openapi3filter.ValidateParameter"} -> "doc.pathitem.parameters / doc.operation.parameters"
+     [] fn \in {"openapi3filter.ValidateRequestBody", "openapi3filter.ValidateResponse"} -> "callerOptions / doc.operation"
+     [] fn \in {"openapi3filter.validateSecurityRequirement", "openapi3filter.ValidateSecurityRequirements"} -> "doc.security"
+     [] fn \in {"openapi3.URIMapCache.func1"} -> "uriCache"
+     [] OTHER -> "unmodelled"
+
+(* ------------------------------------------------------------------ verdicts *)
+(* The verdict the documents of the catalogue prescribe for variant v (1..3) of each operation,  *)
+(* whoever else uses the document at the same time.  Product operations: every feature comes     *)
+(* with a conforming, a violating and another conforming value.  Media types: a body is decoded  *)
+(* iff its media type is in the registry AS IT WAS WHEN VALIDATIONS STARTED (validation never     *)
+(* registers anything).  The default regex engine is case sensitive, a caller's own engine       *)
+(* (case-insensitive in the catalogue) is used for that caller only.  "other": no verdict.       *)
+FlatVerdicts(op) ==
    CASE op = "vreq_params" -> <<"ok", "reject", "ok">>
      [] op = "vreq_params_delete" -> <<"ok", "reject", "ok">>
      [] op = "vreq_body_pattern" -> <<"ok", "reject", "reject">>                \* matching / foreign / upper-cased text
@@ -66,15 +242,26 @@ Verdicts(op) ==
      [] op = "vreq_body_defaults" -> <<"ok", "ok", "ok">>
      [] op = "vresp" -> <<"ok", "reject", "ok">>
      [] op = "visitjson" -> <<"ok", "reject", "ok">>
+     [] op = "load_cached" -> <<"ok", "ok", "ok">>
      [] OTHER -> <<"other", "other", "other">>
 
+Verdicts(op) ==
+   LET e == op[1]  f == op[2] IN
+   IF f = "-" THEN FlatVerdicts(e)
+   ELSE IF e \in MtEntries THEN (IF MtSent(f) \in RegisteredAtStart THEN <<"ok", "reject", "ok">> ELSE <<"reject", "reject", "reject">>)
+   ELSE IF e = "visit_typed" /\ f \in NotTyped THEN <<"ok", "ok", "ok">>
+   ELSE <<"ok", "reject", "ok">>
+
+(* ------------------------------------------------------------------ interleavings *)
 VARIABLES prog,   \* prog[g] = the accesses goroutine g still has to make
           held    \* held[g] = set of mutexes goroutine g holds
 vars == <<prog, held>>
 
 Gs == 1..MaxOps
 
-Init == /\ prog \in [Gs -> {Accesses(op) : op \in Ops}]
+(* many operations have the same access sequence: the interleavings are explored once per distinct sequence *)
+Programs == {Accesses(op) : op \in Ops}
+Init == /\ prog \in [Gs -> Programs]
         /\ held = [g \in Gs |-> {}]
 
 Step(g) ==
